@@ -218,9 +218,12 @@ fn mvn_case(v: &mut Verdicts, c: &Value) {
     let peak = (2.0 * std::f64::consts::PI).powf(-(d as f64) / 2.0) / detl.abs();
     let e = peak * (-q / 2.0).exp();
     let g = guard(|| (&m).pdf(&x));
-    v.check(g.map(|g| ((g - e) / e).abs() <= 1e-10).unwrap_or(false), "MVN", &format!("pdf {}", class), c, json!({"got": g, "expected": e}));
+    // far in the tails (q beyond ~1400) the density leaves the f64 range while the log-density stays an ordinary number
+    let far = e < 1e-290;
+    v.check(g.map(|g| if far { g >= 0.0 && g <= 1e-280 } else { ((g - e) / e).abs() <= 1e-10 }).unwrap_or(false), "MVN", &format!("pdf {}{}", class, if far { " far-tail" } else { "" }), c, json!({"got": g, "expected": e}));
     let gl = guard(|| (&m).ln_pdf(&x));
-    v.check(gl.map(|gl| (gl - e.ln()).abs() <= 1e-10 * (1.0 + e.ln().abs())).unwrap_or(false), "MVN", &format!("ln_pdf {}", class), c, json!({"got": gl, "expected": e.ln()}));
+    let le = peak.ln() - q / 2.0;
+    v.check(gl.map(|gl| (gl - le).abs() <= 1e-10 * (1.0 + le.abs())).unwrap_or(false), "MVN", &format!("ln_pdf {}{}", class, if far { " far-tail" } else { "" }), c, json!({"got": gl, "expected": le}));
     let gm = guard(|| (&m).mean().to_vec());
     v.check(gm.as_ref().map(|g| all_eq(g, &mu)).unwrap_or(false), "MVN", "mean", c, json!(gm));
     let gv = guard(|| (&m).var().data.to_vec());
@@ -228,6 +231,6 @@ fn mvn_case(v: &mut Verdicts, c: &Value) {
     if d == 1 {
         // dimension 1 is the univariate normal
         let n = Normal::new(mu[0], sigma[0].sqrt());
-        v.check(g.map(|g| ((g - n.pdf(x[0])) / g).abs() <= 1e-12).unwrap_or(false), "MVN", "pdf d1 = Normal", c, json!({"mvn": g, "normal": n.pdf(x[0])}));
+        v.check(g.map(|g| if far { n.pdf(x[0]) <= 1e-280 } else { ((g - n.pdf(x[0])) / g).abs() <= 1e-12 }).unwrap_or(false), "MVN", "pdf d1 = Normal", c, json!({"mvn": g, "normal": n.pdf(x[0])}));
     }
 }
